@@ -134,8 +134,7 @@ def parse_tlc_output(text, run):
             run.violated = "temporal"
         if line.startswith("Error:") and run.error is None:
             run.error = line.strip()
-        m = re.match(r"^Error: The postcondition (.*)", line)
-        if m and not run.violated:
+        if ("ostcondition" in line and ("is false" in line or "violated" in line)) and not run.violated:
             run.violated = "postcondition"
     run.ok = ("Model checking completed. No error has been found." in text) or \
              ("Finished in" in text and run.error is None and "Error:" not in text)
